@@ -15,4 +15,11 @@ TRUSTED_BASE = [
 PROPS = {
     "C01": {"modules": ["PP.Props.C01"], "level": "proof"},
     "C02": {"modules": ["PP.Props.C02"], "level": "proof"},
+    "C04": {"modules": ["PP.Props.C04"], "level": "proof"},
+    "C05": {"modules": ["PP.Props.C05"], "level": "proof"},
+    "C07": {"modules": ["PP.Props.C07"], "level": "proof"},
+    "C19": {"modules": ["PP.Props.C19"], "level": "proof"},
+    "C03": {"modules": ["PP.Props.C03"], "level": "other"},
+    "C11": {"modules": ["PP.Props.C11"], "level": "other"},
+    "C12": {"modules": ["PP.Props.C12"], "level": "other"},
 }
